@@ -795,6 +795,10 @@ func (f *Frame) lookup(st *State, v *ssa.Lookup) *Val {
 	m := f.get(v.X)
 	k := f.mapKey(f.get(v.Index), mt)
 	pres, vals, _, _, _, _ := c.mapMems(st, mt)
+	c.groundFrames(pres, m.T)
+	for _, va := range vals {
+		c.groundFrames(va, m.T)
+	}
 	has := Select(Select(pres, m.T), k)
 	var ts []Term
 	for _, va := range vals {
